@@ -52,6 +52,7 @@ type Opts struct {
 	SpinU     int
 	HintDir   string // directory with <harness>[_fix].json hint files (optional)
 	WriteHint bool   // write the hint file after the fixpoint
+	Progress  func(*report.Report) // called after every query (partial reports survive a timeout)
 	Log       io.Writer
 }
 
@@ -433,6 +434,9 @@ func RunLoaded(l *Loaded, o Opts) *report.Report {
 	addQ := func(name, kind, res string, sec float64) {
 		rep.Queries = append(rep.Queries, report.Query{Name: name, Kind: kind, Result: res, Sec: sec})
 		logf("  %-8s %-10s %s (%.2fs)\n", res, kind, name, sec)
+		if o.Progress != nil {
+			o.Progress(rep)
+		}
 	}
 
 	// model terms to fetch
@@ -558,6 +562,13 @@ func RunLoaded(l *Loaded, o Opts) *report.Report {
 		return tr, sites
 	}
 
+	rep.Status = "partial"
+	rep.Reason = "engine run did not finish (timeout): only the queries listed were discharged"
+	defer func() {
+		if rep.Status == "partial" {
+			rep.Status, rep.Reason = "ok", ""
+		}
+	}()
 	// (0) sanity
 	res, _, sec := sv.Check(nil, o.QueryMs, nil)
 	addQ("assumptions-consistent (expect sat)", "sanity", res, sec)
